@@ -164,6 +164,14 @@ class LoggedValue:
     def __hash__(self):
         return hash(self.n)
 
+    def __repr__(self):
+        self.log.append(("repr", "value", self.n))
+        return f"LoggedValue({self.n})"
+
+    def __str__(self):
+        self.log.append(("str", "value", self.n))
+        return f"LoggedValue({self.n})"
+
 
 def literal_template(spec, lm, x, items):
     """plain values and one-shot iterables written into a query as literals: nothing of them is consumed or asked while
@@ -172,7 +180,7 @@ def literal_template(spec, lm, x, items):
     from krrood.entity_query_language.entity import entity, flatten, in_, contains
     from krrood.entity_query_language.quantify_entity import an
     rng = random.Random(spec["tseed"])
-    kind = rng.choice(["flatten_gen", "in_gen", "eq_value", "in_values"])
+    kind = rng.choice(["flatten_gen", "in_gen", "eq_value", "in_values", "index_key", "concluded_value", "call_argument"])
     vals = [rng.randint(0, 3) for _ in range(rng.randint(1, 5))]
 
     def logged_iter():
@@ -188,6 +196,19 @@ def literal_template(spec, lm, x, items):
         q = an(entity(x, in_(x.a, logged_iter())))
     elif kind == "eq_value":
         q = an(entity(x, x.name == LoggedValue(lm.LOG, 1)))
+    elif kind == "index_key":
+        # a user object as the key of a symbolic subscript: its label is not rendered from the object
+        q = an(entity(x, x.name[LoggedValue(lm.LOG, 1)] == 1))
+    elif kind == "call_argument":
+        q = an(entity(x, x.name.count(LoggedValue(lm.LOG, 1)) == 1))
+    elif kind == "concluded_value":
+        # a plain user object as the value of a conclusion
+        from krrood.entity_query_language.entity import inference
+        from krrood.entity_query_language.conclusion import Add
+        v = inference(LoggedValue)()
+        q = an(entity(v, x.a >= 0))
+        with q:
+            Add(v, LoggedValue(lm.LOG, 1))
     else:
         q = an(entity(x, in_(x.name, [LoggedValue(lm.LOG, 1), LoggedValue(lm.LOG, 2)])))
     built = list(lm.LOG)
